@@ -950,4 +950,5 @@ func (e *Engine) addPEGObligations() {
 	pa.fixpoints()
 	e.addPEGAtomicity(pa)
 	e.addPEGFlagObligations(pa)
+	e.addPEGTyping(pa)
 }
